@@ -142,6 +142,10 @@ def viability_condition(ctx, fi: FunctionInfo):
                     fk = _frame_kind(cfg, fn, frame, use)
                     if fk is None:
                         return None
+                    if fr not in (f"{frame}['frequency']", f"{frame}['frequency'].values", f"{frame}['frequency'].to_numpy()"):
+                        # the compared quantity is not the group frequency itself (rounded, shifted,
+                        # scaled ...): a different test from the one the statement describes
+                        return p_atom(f"TEST_ON_{fr.replace(' ', '')}_NOT_ON_THE_FREQUENCY_{fk.replace('+sorted', '')}")
                     fk = fk.replace("+sorted", "")  # a per-row threshold does not depend on row order
                     if thr != "self.min_freq_mod":
                         return p_atom(f"FREQ_VS_{thr}_{fk}")
